@@ -2,7 +2,7 @@
    Only statements here; proofs live in coq/proofs/ConnLimitsP.v and ConnLimitsRefuted.v. *)
 From AQ Require Import lib.Base model.RangeSet model.StreamRecv model.ConnLimits model.ConnLimitsSpec
   gen.C07Consts proofs.RangeSetP proofs.ConnLimitsP proofs.ConnLimitsAdv proofs.ConnLimitsUsed proofs.ConnLimitsSim
-  proofs.ConnLimitsDeliv.
+  proofs.ConnLimitsDeliv proofs.ConnLimitsMsd model.ConnLimitsCut proofs.ConnLimitsCutP.
 
 (* over_limit_closes, part 1: in EVERY state, a STREAM / RESET_STREAM / MAX_STREAM_DATA / STREAM_DATA_BLOCKED
    frame that would create a peer-initiated stream beyond the current MAX_STREAMS value is answered with
@@ -109,17 +109,27 @@ Theorem used_is_sum_of_highest : forall cl msd md cb ops os c,
 Proof. exact used_exact. Qed.
 Print Assumptions used_is_sum_of_highest.
 
-(* within_limit_never_accused_partial: for EVERY op sequence, a peer whose frames stay within the connection-level
-   limit and the stream-count limits AS ADVERTISED ON THE WIRE (transport parameters, then the MAX_DATA / MAX_STREAMS
-   frames actually written, model/ConnLimitsSpec.v), within the endpoint's current per-stream limit, and that is
-   final-size consistent, is never answered with FLOW_CONTROL_ERROR, STREAM_LIMIT_ERROR or FINAL_SIZE_ERROR.
-   Partial: the per-stream limit is max_stream_data_local itself (accused false ...), not the last
-   MAX_STREAM_DATA seen on the wire; missing is the per-stream analogue of advertised_is_enforced. *)
-Theorem within_limit_never_accused_partial : forall cl msd md cb ops,
+(* within_limit_never_accused (FULL strength): for EVERY op sequence (peer frames, write passes, lost MAX_* frames, local
+   opens, ...), a peer whose frames stay within EVERY limit AS ADVERTISED ON THE WIRE so far -- connection: initial_max_data,
+   then MAX_DATA frames; per stream: initial_max_stream_data_*, then the MAX_STREAM_DATA frames written for that stream;
+   stream count: initial_max_streams_*, then MAX_STREAMS frames (the ledger of model/ConnLimitsSpec.v, `accused true`) --
+   and that is final-size consistent, is never answered with FLOW_CONTROL_ERROR, STREAM_LIMIT_ERROR or FINAL_SIZE_ERROR.
+   Proof: simulation Sim (ConnLimitsSim.v) + invariant MSim (ConnLimitsMsd.v): p_adv_msd(sid) <= max_stream_data_local(sid)
+   for every receivable stream whose state was not discarded (a frame for any other stream is answered with
+   STREAM_STATE_ERROR or ignored).  Non-vacuity: never_accused_full_nonvacuous. *)
+Theorem within_limit_never_accused : forall cl msd md cb ops,
+  0 <= msd -> 0 <= md -> 0 <= cb ->
+  accused true (conn_init cl msd md cb) (peer_init msd md) ops = false.
+Proof. exact never_accused_full. Qed.
+Print Assumptions within_limit_never_accused.
+
+(* the complement: the same for a peer that stays within the per-stream limit the endpoint currently ENFORCES
+   (max_stream_data_local, `accused false`), which is never below the wire value (MSim) *)
+Theorem within_enforced_limit_never_accused : forall cl msd md cb ops,
   0 <= msd -> 0 <= md -> 0 <= cb ->
   accused false (conn_init cl msd md cb) (peer_init msd md) ops = false.
 Proof. exact never_accused_partial. Qed.
-Print Assumptions within_limit_never_accused_partial.
+Print Assumptions within_enforced_limit_never_accused.
 
 (* the receiver bound used above, for every frame in every receiver state satisfying RB *)
 Theorem receiver_buffer_step : forall st off data fin, RB st ->
@@ -143,7 +153,7 @@ Proof. exact advertised_is_enforced. Qed.
 Print Assumptions advertised_is_enforced.
 
 
-(* Delivery outcomes of the packets that advertised limits.  within_limit_never_accused_partial and advertised_is_enforced
+(* Delivery outcomes of the packets that advertised limits.  within_limit_never_accused and advertised_is_enforced
    above already quantify over op sequences that contain LimitLost / StreamLimitLost at ANY position (a MAX_DATA /
    MAX_STREAMS / MAX_STREAM_DATA frame declared lost, with peer frames before the re-advertisement): the limit in force
    for a check is the largest value ever written to the wire, whatever happened to the packet.  The two statements
@@ -173,3 +183,43 @@ Theorem limit_checks_read_granted_value :
   CHECK_FIELD_COUNT = 0 /\ LOST_LIMIT_TOUCHES_ONLY_SENT = true.
 Proof. exact checks_read_granted. Qed.
 Print Assumptions limit_checks_read_granted_value.
+
+
+(* ---- write passes cut short by QuicPacketBuilderStop (model/ConnLimitsCut.v: builder budget as an input, as in C18) ----
+   over_advertised_limit_closes_refuted: in the tree under test the limit writers assign the raised value BEFORE
+   builder.start_frame() (RAISE_BEFORE_START_FRAME = true, probed from the source on every run and recorded in the evidence; in a
+   tree that assigns the value only after start_frame() returned the premise is false and these statements are vacuous), so a MAX_DATA /
+   MAX_STREAM_DATA / MAX_STREAMS frame refused for lack of congestion window leaves the raised value in force while nothing
+   was advertised: there are histories in which a STREAM frame BEYOND every limit the peer ever saw on the wire is accepted
+   (tolerated ... = true) -- the first sentence of C07 fails there.  Witnesses for the three kinds of limit:
+   cut_pass_tolerates_witnesses; replayed on the real QuicConnection (docs/C07.md, F-C07-4). *)
+Theorem over_advertised_limit_closes_refuted : RAISE_BEFORE_START_FRAME = true -> exists cl msd md ops,
+  0 <= msd /\ 0 <= md /\ tolerated (conn_init cl msd md 0) (peer_init msd md) ops = true.
+Proof. exact over_advertised_refuted. Qed.
+Print Assumptions over_advertised_limit_closes_refuted.
+
+Theorem cut_pass_tolerates_witnesses : RAISE_BEFORE_START_FRAME = true ->
+  tolerated (conn_init false 3000 2000 0) (peer_init 3000 2000) w_cut_data = true /\
+  tolerated (conn_init false 1000 4000 0) (peer_init 1000 4000) w_cut_stream = true /\
+  tolerated (conn_init false 1000 4000 0) (peer_init 1000 4000) w_cut_count = true.
+Proof. exact cut_pass_tolerates. Qed.
+Print Assumptions cut_pass_tolerates_witnesses.
+
+(* The other direction holds in EVERY state, cut or not: whatever a pass writes is what is enforced afterwards and no limit
+   ever goes down -- the endpoint never enforces LESS than a value it has put on the wire, and Limit.sent /
+   max_stream_data_local_sent are only assigned when the frame is in the packet. *)
+Theorem cut_pass_writes_what_it_enforces : forall ft l b, 0 <= l_value l ->
+  let '(l', w, r) := raise_limit_b ft l b in
+  l_value l <= l_value l' /\ l_used l' = l_used l /\
+  Forall (fun x => x = W ft 0 (l_value l')) w /\
+  (w <> [] -> l_sent l' = l_value l') /\ (r = None -> w = [] /\ l_sent l' = l_sent l).
+Proof. exact raise_limit_b_sound. Qed.
+Print Assumptions cut_pass_writes_what_it_enforces.
+
+Theorem cut_pass_stream_frames_carry_enforced_limit : forall l, Forall (fun p => 0 <= sm_msd (snd p)) l -> forall b,
+  let '(l', w, r) := raise_streams_b l b in
+  Forall2 (fun p p' => fst p' = fst p /\ strm_le (snd p) (snd p')) l l' /\
+  Forall (fun x => match x with W ft a v => ft = FT_MAX_STREAM_DATA /\
+                     exists s', In (a, s') l' /\ v = sm_msd s' /\ sm_sent s' = v end) w.
+Proof. exact raise_streams_b_sound. Qed.
+Print Assumptions cut_pass_stream_frames_carry_enforced_limit.
